@@ -448,16 +448,39 @@ func writtenGlobals(pkg *types.Package, info *types.Info, files []*ast.File) map
 // an enclosing scope (they are shared between goroutines).
 func (rw *rewriter) findShared(body *ast.BlockStmt) {
 	written := rw.writtenVars(body)
+	// local variables holding a function literal (f := func(…){…}): a goroutine that calls f runs f's body
+	localFn := map[types.Object]*ast.FuncLit{}
 	ast.Inspect(body, func(n ast.Node) bool {
-		gs, ok := n.(*ast.GoStmt)
-		if !ok {
-			return true
+		switch t := n.(type) {
+		case *ast.AssignStmt:
+			for i, l := range t.Lhs {
+				if id, ok := l.(*ast.Ident); ok && i < len(t.Rhs) {
+					if fl, ok := t.Rhs[i].(*ast.FuncLit); ok {
+						if o := rw.info.Defs[id]; o != nil {
+							localFn[o] = fl
+						} else if o := rw.info.Uses[id]; o != nil {
+							localFn[o] = fl
+						}
+					}
+				}
+			}
+		case *ast.ValueSpec:
+			for i, id := range t.Names {
+				if i < len(t.Values) {
+					if fl, ok := t.Values[i].(*ast.FuncLit); ok {
+						if o := rw.info.Defs[id]; o != nil {
+							localFn[o] = fl
+						}
+					}
+				}
+			}
 		}
-		fl, ok := gs.Call.Fun.(*ast.FuncLit)
-		if !ok {
-			return true
-		}
-		ast.Inspect(fl.Body, func(m ast.Node) bool {
+		return true
+	})
+	visited := map[*ast.FuncLit]bool{}
+	var scan func(root ast.Node, lo, hi token.Pos)
+	scan = func(root ast.Node, lo, hi token.Pos) {
+		ast.Inspect(root, func(m ast.Node) bool {
 			id, ok := m.(*ast.Ident)
 			if !ok {
 				return true
@@ -466,22 +489,22 @@ func (rw *rewriter) findShared(body *ast.BlockStmt) {
 			if !ok || obj.IsField() || obj.Pkg() != rw.pkg {
 				return true
 			}
-			// declared outside the closure (and not a package-level variable)?
-			if obj.Pos() < fl.Pos() || obj.Pos() > fl.End() {
+			if fl := localFn[obj]; fl != nil && !visited[fl] {
+				visited[fl] = true
+				scan(fl.Body, fl.Pos(), fl.End())
+			}
+			// declared outside the goroutine's code (and not a package-level variable)?
+			if obj.Pos() < lo || obj.Pos() > hi {
 				if obj.Parent() != rw.pkg.Scope() {
 					// only plain data: channels, mutexes and waitgroups are synchronisation objects
 					t := obj.Type()
 					if isChan(t) {
 						return true
 					}
-					if ok, _ := namedIs(t, "sync", "Mutex"); ok {
-						return true
-					}
-					if ok, _ := namedIs(t, "sync", "WaitGroup"); ok {
-						return true
-					}
-					if ok, _ := namedIs(t, "sync", "RWMutex"); ok {
-						return true
+					for _, sn := range []string{"Mutex", "WaitGroup", "RWMutex"} {
+						if ok, _ := namedIs(t, "sync", sn); ok {
+							return true
+						}
 					}
 					if pt, ok := t.(*types.Pointer); ok {
 						t = pt.Elem()
@@ -496,6 +519,17 @@ func (rw *rewriter) findShared(body *ast.BlockStmt) {
 			}
 			return true
 		})
+	}
+	ast.Inspect(body, func(n ast.Node) bool {
+		gs, ok := n.(*ast.GoStmt)
+		if !ok {
+			return true
+		}
+		if fl, ok := gs.Call.Fun.(*ast.FuncLit); ok {
+			scan(fl.Body, fl.Pos(), fl.End())
+		} else {
+			scan(gs.Call.Fun, gs.Pos(), gs.End()) // go f(…): f may be a local function value
+		}
 		return true
 	})
 }
@@ -741,13 +775,37 @@ func (rw *rewriter) stmt(st ast.Stmt) (pre []ast.Stmt, out ast.Stmt) {
 			fatal("%s: statement mixes a shared-variable access with a synchronisation operation; order of events would be guessed", rw.pos(n))
 		}
 	case *ast.GoStmt:
-		fl, ok := n.Call.Fun.(*ast.FuncLit)
-		if !ok || len(n.Call.Args) != 0 {
-			fatal("%s: go statement is not `go func(){…}()`; not supported", rw.pos(n))
+		// go F(a1, …, an)  ->  vrtA1 := a1; …; [vrtF := F;] vrt.Go(func() { F(vrtA1, …) })
+		// (arguments and a non-literal function value are evaluated by the spawning goroutine, as in Go)
+		call := n.Call
+		var args []ast.Expr
+		for _, a := range call.Args {
+			pre = append(pre, rw.accessesIn(a, false)...)
+			rw.tmpN++
+			tmp := ast.NewIdent(fmt.Sprintf("vrtArg%d", rw.tmpN))
+			pre = append(pre, &ast.AssignStmt{Lhs: []ast.Expr{tmp}, Tok: token.DEFINE, Rhs: []ast.Expr{rw.expr(a)}})
+			args = append(args, ast.NewIdent(tmp.Name))
 		}
-		rw.block(fl.Body)
+		if call.Ellipsis.IsValid() {
+			fatal("%s: go statement with a variadic spread; not supported", rw.pos(n))
+		}
+		var fn ast.Expr
+		if fl, ok := call.Fun.(*ast.FuncLit); ok {
+			rw.block(fl.Body)
+			fn = fl
+		} else {
+			rw.tmpN++
+			tmp := ast.NewIdent(fmt.Sprintf("vrtFn%d", rw.tmpN))
+			pre = append(pre, &ast.AssignStmt{Lhs: []ast.Expr{tmp}, Tok: token.DEFINE, Rhs: []ast.Expr{rw.expr(call.Fun)}})
+			fn = ast.NewIdent(tmp.Name)
+		}
 		rw.st.Go++
-		out = &ast.ExprStmt{X: rw.call("Go", fl)}
+		if fl, ok := fn.(*ast.FuncLit); ok && len(args) == 0 {
+			out = &ast.ExprStmt{X: rw.call("Go", fl)}
+		} else {
+			body := &ast.BlockStmt{List: []ast.Stmt{&ast.ExprStmt{X: &ast.CallExpr{Fun: fn, Args: args}}}}
+			out = &ast.ExprStmt{X: rw.call("Go", &ast.FuncLit{Type: &ast.FuncType{Params: &ast.FieldList{}}, Body: body})}
+		}
 	case *ast.DeferStmt:
 		n.Call = rw.expr(n.Call).(*ast.CallExpr)
 	case *ast.ReturnStmt:
